@@ -345,4 +345,9 @@ def obligations(tier, build):
     obs.append(Obligation("isolation/k=%d" % K, isolation_harness(K), bounds={"history length": K, "operations": OPS,
                                                                            "siblings": "one created before, one after"},
                           leverage="choice feasibility only", max_paths=100000))
+    import props._owners as owners_
+    for kind_ in ("list", "dict", "set"):
+        obs.append(Obligation("sharing/%s" % kind_, owners_.sharing_harness(kind_),
+                              bounds={"ways of handing a value on": owners_.SHARING_HOWS, "declarations": "x and y from ONE shared definition object"},
+                              leverage="choice feasibility only", stubs=[]))
     return obs
